@@ -611,7 +611,7 @@ class Helper:
             splats = [k for n in _walk_fn(fn) if isinstance(n, ast.Call) for k in n.keywords if k.arg is None
                       and isinstance(k.value, ast.Name) and k.value.id == self.kwname]
             uses = [n for n in _walk_fn(fn) if isinstance(n, ast.Name) and n.id == self.kwname]
-            kw_ok = len(uses) == len(splats) and bool(splats)
+            kw_ok = len(uses) == len(splats)   # (a **kwargs parameter that is never used swallows the surplus keywords)
         # a `*rest` parameter is supported when the body only reads it (the surplus positional arguments become a tuple)
         self.varname = a.vararg.arg if a.vararg else None
         var_ok = True
@@ -842,6 +842,26 @@ def inline_new_members(trees, shape_all):
                         h.body = _strip_doc(m.body)
                         methods[m.name] = h
     log = {}
+    # N28: a plain function that hands back the generator made by a (new) generator function - `return G(args)` - is, for
+    # every consumer that iterates / sends / reads the generator's result, the generator function `return (yield from G(args))`
+    gen_helpers = set()
+    for mname, tree in trees.items():
+        shf = (shape_all.get(mname) or {"functions": {}})["functions"]
+        for st in tree.body:
+            if isinstance(st, ast.FunctionDef) and st.name not in shf and len(defs.get(st.name, ())) == 1 \
+                    and any(isinstance(n, (ast.Yield, ast.YieldFrom)) for n in _walk_fn(st)):
+                gen_helpers.add(st.name)
+    if gen_helpers:
+        for mname, tree in trees.items():
+            for q, fn in functions_of(tree).items():
+                if any(isinstance(n, (ast.Yield, ast.YieldFrom)) for n in _walk_fn(fn)):
+                    continue
+                body = _strip_doc(fn.body)
+                if len(body) == 1 and isinstance(body[0], ast.Return) and isinstance(body[0].value, ast.Call) \
+                        and isinstance(body[0].value.func, ast.Name) and body[0].value.func.id in gen_helpers and fn.name not in gen_helpers:
+                    body[0].value = ast.copy_location(ast.YieldFrom(value=body[0].value), body[0].value)
+                    ast.fix_missing_locations(fn)
+                    log.setdefault(mname, [])
     # new module-level functions that other modules import by name: inlined there like local helpers (N1 across modules)
     pinned_names = set()
     for sh in shape_all.values():
@@ -849,7 +869,7 @@ def inline_new_members(trees, shape_all):
     for mname, tree in trees.items():
         sh = shape_all.get(mname)
         if sh is None:
-            continue
+            sh = {"functions": {}}   # a module that did not exist when the shapes were pinned: all its functions are new
         for st in list(tree.body):
             if not (isinstance(st, ast.FunctionDef) and st.name not in sh["functions"] and st.name not in pinned_names
                     and st.name not in pinned_attrs and len(defs.get(st.name, ())) == 1 and not st.decorator_list):
